@@ -78,7 +78,10 @@ class Obj:
         self.real = None
         self.ever_cooked = False
         self.count_unknown = False
-        self.uncertain = False
+        self.tainted = False
+        self.taint_mtimes: set = set()
+        self.taint_versions: list = []
+        self.pre_version = None
 
 
 class C16(CheckBase):
@@ -337,6 +340,7 @@ class C16(CheckBase):
             after this use (None in exc position means no exception)."""
             cur = fsm.get(ob.path)
             accept = []
+            ob.pre_version = ob.version
             if ob.auto_reload or ob.seen is None:
                 m = mtime_of(ob.path)
                 if ob.seen is None or m != ob.seen:
@@ -353,12 +357,6 @@ class C16(CheckBase):
                     # any mtime scheme - either version is acceptable
                     accept.append(cur[0])
                     cover.add("same-mtime-rewrite")
-            if ob.uncertain and ob.version is not None and cur is not None \
-                    and cur[0] != ob.version and cur[0] not in accept:
-                # an earlier op met an injected fault: the real object may
-                # have been left invalid and compile the current content now
-                accept.append(cur[0])
-                cover.add("post-fault-ambiguity")
             if ob.version is None:
                 if cur is None:
                     return None, "OSError"
@@ -415,13 +413,7 @@ class C16(CheckBase):
         def adopt(ob: Obj, got, wants):
             """After a clean use of an object whose state was ambiguous,
             settle on the version that was actually served."""
-            if not ob.uncertain:
-                return
-            for w in wants:
-                if w[:2] == got[:2] and id(w) in want_version:
-                    ob.version = want_version[id(w)]
-                    break
-            ob.uncertain = False
+            return
 
         def check(i, op, got, wants, faulted):
             log.add("op", i, norm_msg(canonical(op))[:200],
@@ -476,6 +468,61 @@ class C16(CheckBase):
                 wants.append(self.ref_render(world, v, None, what, arg))
                 want_version[id(wants[-1])] = v
             return wants
+
+        def tainted_use(i, op, ob: Obj, got, what, arg, faulted) -> bool:
+            """Handles a use of a tainted object; True if it was one."""
+            if not ob.tainted:
+                return False
+            log.add("op", i, norm_msg(canonical(op))[:200], "tainted",
+                    got[0])
+            m = mtime_of(ob.path)
+            cur = fsm.get(ob.path)
+            has_callee = bool(ob.children) or bool(
+                cur is not None and cur[0].get("callee")) or any(
+                v.get("callee") for v in ob.taint_versions)
+            if faulted or has_callee:
+                ob.taint_mtimes.add(m)
+                if cur is not None:
+                    ob.taint_versions.append(cur[0])
+                cover.add("tainted-use-skipped")
+                if faulted:
+                    self._uncertain(ob, mtime_of, fsm)
+                return True
+            # Whatever state the fault left the real object in, it now
+            # either still holds a version it may have compiled since just
+            # before the fault, or it (re)loads the file as it is now.
+            wants = []
+            versions = list(ob.taint_versions)
+            fresh = ob.auto_reload and cur is not None and \
+                m not in ob.taint_mtimes
+            if fresh:
+                versions = []
+            if cur is not None and cur[0] not in versions:
+                versions.append(cur[0])
+            for v in versions:
+                if v["flavour"] in BROKEN:
+                    wants.append(["exc", "TemplateError"])
+                else:
+                    wants.append(self.ref_render(world, v, None, what, arg))
+            if cur is None:
+                wants.append(["exc", "OSError"])
+            check(i, op, got, wants, False)
+            ob.taint_mtimes.add(m)
+            if cur is not None:
+                ob.taint_versions.append(cur[0])
+            if fresh:
+                # recovery point: every possible state had to reload
+                cover.add("recovered-after-fault")
+                ob.tainted = False
+                ob.seen = m
+                ob.version = None if cur[0]["flavour"] in BROKEN else cur[0]
+                ob.ever_cooked = True
+                ob.children.clear()
+                ob.compiles = counting.get(id(ob.real), 0)
+                ob.count_unknown = False
+            else:
+                cover.add("tainted-use-checked")
+            return True
 
         def count_check(i, op, ob: Obj):
             real_n = counting.get(id(ob.real), 0)
@@ -539,13 +586,15 @@ class C16(CheckBase):
                         got = outcome(lambda: c.render(t=t, x="X<1>"))
                         what, arg = "use", op[2]
                     faulted = sum(world.fired.values()) > fired_before
-                    wants = expected_for(ob, what, arg)
-                    check(i, op, got, wants, faulted)
-                    if faulted:
-                        self._uncertain(ob)
+                    if tainted_use(i, op, ob, got, what, arg, faulted):
+                        pass
                     else:
-                        adopt(ob, got, wants)
-                        count_check(i, op, ob)
+                        wants = expected_for(ob, what, arg)
+                        check(i, op, got, wants, faulted)
+                        if faulted:
+                            self._uncertain(ob, mtime_of, fsm)
+                        else:
+                            count_check(i, op, ob)
                 elif k in ("load", "absload"):
                     spec = op[1] if k == "load" else full(op[1])
                     mode = op[2] if k == "load" else "render"
@@ -595,13 +644,16 @@ class C16(CheckBase):
                         got = outcome(lambda: sorted(t.macros.names))
                     faulted = faulted or \
                         sum(world.fired.values()) > fired_before
-                    wants = expected_for(lo, mode)
-                    check(i, [k, world.rel(spec), mode], got, wants, faulted)
-                    if faulted:
-                        self._uncertain(lo)
+                    opd = [k, world.rel(spec), mode]
+                    if tainted_use(i, opd, lo, got, mode, None, faulted):
+                        pass
                     else:
-                        adopt(lo, got, wants)
-                        count_check(i, op, lo)
+                        wants = expected_for(lo, mode)
+                        check(i, opd, got, wants, faulted)
+                        if faulted:
+                            self._uncertain(lo, mtime_of, fsm)
+                        else:
+                            count_check(i, op, lo)
             world.armed.clear()
 
         # liveness: faults are over; one forward tick and one use must give
@@ -618,6 +670,9 @@ class C16(CheckBase):
                 fsm[ob.path] = (fsm[ob.path][0], m)
                 t = ob.real
                 got = outcome(lambda: sorted(t.macros.names))
+                if tainted_use("final-%d" % j, ["names", ob.path], ob, got,
+                               "names", None, False):
+                    continue
                 wants = expected_for(ob, "names")
                 check("final-%d" % j, ["names", ob.path], got, wants, False)
 
@@ -652,16 +707,27 @@ class C16(CheckBase):
         world.armed[server.name] = {"kind": f["kind"], "nth": f["nth"],
                                     "kinds": kinds}
 
-    def _uncertain(self, ob: Obj) -> None:
-        """An op met an injected fault.  The model has taken the fault-free
-        transition; the real object may instead have seen mtime 0 (and
-        reloaded) or be invalid.  Both alternatives serve the *current*
-        file content at the next use, which the same-mtime rule of
-        ``model_use`` already accepts next to the fault-free version; only
-        the compile counter is unknowable and is adopted once."""
+    def _uncertain(self, ob: Obj, mtime_of, fsm) -> None:
+        """An op on ``ob`` met an injected fault.  What state the real
+        object is in now depends on which call the fault hit (mtime read
+        as 0, read failed, callee not created yet ...).  Instead of
+        guessing one state, the object (and its callees) are *tainted*:
+        the model remembers every mtime the object may have recorded and
+        every version it may hold, and later uses accept exactly those
+        (see tainted_use) until a recovery point - the first use at which
+        the file exists with an mtime the object cannot have seen."""
         for o in [ob] + list(ob.children.values()):
+            if not o.tainted:
+                o.taint_mtimes = {0, o.seen}
+                o.taint_versions = [o.version] if o.version else []
+                if o.pre_version and o.pre_version not in o.taint_versions:
+                    o.taint_versions.append(o.pre_version)
+            o.tainted = True
             o.count_unknown = True
-            o.uncertain = True
+            o.taint_mtimes.add(mtime_of(o.path))
+            cur = fsm.get(o.path)
+            if cur is not None and cur[0] not in o.taint_versions:
+                o.taint_versions.append(cur[0])
 
     def _v(self, kind, i, op, detail) -> dict:
         return {"kind": kind, "sig": kind,
